@@ -157,7 +157,7 @@ PATH_KEYS = [
     ('bang', '!'), ('star', '*'), ('double_quote', '"q"'),
     ('colon', 'a:b'), ('slash', 'a/b'), ('backslash', 'a\\b'),
     ('pipe', 'a|b'), ('dollar', '$x'), ('only_blank', ' '),
-    ('tab', 'x\ty'),
+    ('tab', 'x\ty'), ('line_break', 'x\ny'),
 ]
 PATH_POSITIONS = {
     'top': lambda k: [k],                       # root[k]
@@ -1797,9 +1797,9 @@ ASSUMPTIONS = [
     'resource paths: a key is any non-empty str without "." (the marker '
     'syntax gives no way to write such a key) and without the delimiter of '
     'the tree; keys holding "{" or "}" (indistinguishable from malformed '
-    'markers), a line break (the stock patterns use "." which matches no '
-    '"\\n": "$res{a.x\\ny}" passes through as a str on the unchanged tree - '
-    'reported, not in the alphabet) and empty keys are not in the key menu',
+    'markers) and empty keys are not in the key menu; a key with a line '
+    'break is (the pinned tree passed "$res{a.x\\ny}" through as a str: '
+    'the stock patterns used "." without DOTALL - repaired, section 4)',
     'the delimiter is changed only the documented way (class attribute '
     'ResourceMap.split_char, one character, constant during a case, the '
     'tree built after the change); an instance attribute, a change between '
